@@ -36,7 +36,9 @@ def anchors(a: Anchors):
            lambda fn: any(isinstance(n, ast.Return) and norm(ast.unparse(n.value)) == "-np.cross(x,y,axis=axis)" for n in ast.walk(fn)))
     a.fact("rotate_by_left_mult", MC, "Molecules.rotate_by", "rot = rotator * self._rotator",
            lambda fn: any(isinstance(n, ast.Assign) and norm(ast.unparse(n)) == "rot=rotator*self._rotator" for n in ast.walk(fn))
-           and "self.__class__(self._pos,rot," in norm(ast.unparse(fn)))
+           and "self.__class__(self._pos,rot," in norm(ast.unparse(fn))
+           and sum(1 for n in ast.walk(fn) if isinstance(n, (ast.Assign, ast.AugAssign)) and "self._rotator" in ast.unparse(n.targets[0] if isinstance(n, ast.Assign) else n.target)) == 1
+           and any(isinstance(n, ast.Assign) and norm(ast.unparse(n)) == "self._rotator=rot" for n in ast.walk(fn)))
     a.fact("translate_internal_forward", MC, "Molecules.translate_internal", "world_shifts = self._rotator.apply(shifts)",
            lambda fn: "world_shifts=self._rotator.apply(shifts)" in norm(ast.unparse(fn))
            and "returnself.translate(world_shifts,copy=copy)" in norm(ast.unparse(fn)))
@@ -112,50 +114,56 @@ def corr_sequences(ck, rng):
         ops = []
         terms = []
         L = int(rng.integers(1, maxlen + 1))
+        identity_ok = True          # copy=False returns the same instance, copy=True a new one
         cur = mol
         for _ in range(L):
             k = int(rng.integers(0, 6))
+            # in-place variant (copy=False) once the running value is no longer the original object
+            cp = True if cur is mol else bool(rng.random() < 0.6)
+            prev = cur
             if k == 0:
                 v = rng.integers(-8, 9, size=3) / 4.0
-                cur = cur.translate(v)
-                ops.append(["translate", v.tolist()]); terms.append(f"OTr Q {vlit(v)}")
+                cur = cur.translate(v, copy=cp)
+                ops.append(["translate", v.tolist(), cp]); terms.append(f"OTr Q {vlit(v)}")
             elif k == 1:
                 v = rng.integers(-8, 9, size=3) / 4.0
-                cur = cur.translate_internal(v)
-                ops.append(["translate_internal", v.tolist()]); terms.append(f"OTrI Q {vlit(v)}")
+                cur = cur.translate_internal(v, copy=cp)
+                ops.append(["translate_internal", v.tolist(), cp]); terms.append(f"OTrI Q {vlit(v)}")
             elif k == 2:
                 i = int(rng.integers(0, 24))
                 how = int(rng.integers(0, 3))
                 rot = Rotation.from_matrix(R[i].astype(float))
                 if how == 0:
-                    cur = cur.rotate_by(Rotation.from_matrix(R[i][None].astype(float)))
+                    cur = cur.rotate_by(Rotation.from_matrix(R[i][None].astype(float)), copy=cp)
                 elif how == 1:
-                    cur = cur.rotate_by_matrix(R[i].astype(float))
+                    cur = cur.rotate_by_matrix(R[i].astype(float), copy=cp)
                 else:
-                    cur = cur.rotate_by_quaternion(rot.as_quat())
-                ops.append(["rotate_by", i, how]); terms.append(f"ORotW Q {mlit(R[i])}")
+                    cur = cur.rotate_by_quaternion(rot.as_quat(), copy=cp)
+                ops.append(["rotate_by", i, how, cp]); terms.append(f"ORotW Q {mlit(R[i])}")
             elif k == 3:
                 i = int(rng.integers(0, 24))
                 rv = Rotation.from_matrix(R[i].astype(float)).as_rotvec()
-                cur = cur.rotate_by_rotvec_internal(rv)
-                ops.append(["rotate_by_rotvec_internal", i]); terms.append(f"ORotI Q {mlit(R[i])}")
+                cur = cur.rotate_by_rotvec_internal(rv, copy=cp)
+                ops.append(["rotate_by_rotvec_internal", i, cp]); terms.append(f"ORotI Q {mlit(R[i])}")
             elif k == 4:
                 i = int(rng.integers(0, 24))
                 rv = Rotation.from_matrix(R[i].astype(float)).as_rotvec()
-                cur = cur.rotate_by_rotvec(rv[None])
-                ops.append(["rotate_by_rotvec", i]); terms.append(f"ORotW Q {mlit(R[i])}")
+                cur = cur.rotate_by_rotvec(rv[None], copy=cp)
+                ops.append(["rotate_by_rotvec", i, cp]); terms.append(f"ORotW Q {mlit(R[i])}")
             else:
                 i = int(rng.integers(0, 24))
                 v = rng.integers(-8, 9, size=3) / 4.0
                 cur = cur.linear_transform(v[None], Rotation.from_matrix(R[i][None].astype(float)))
                 ops.append(["linear_transform", v.tolist(), i]); terms.append(f"OLin Q {vlit(v)} {mlit(R[i])}")
-            opn[ops[-1][0]] = opn.get(ops[-1][0], 0) + 1
+            if k != 5 and (cur is prev) != (not cp):
+                identity_ok = False
+            opn[ops[-1][0] + ("" if (k == 5 or cp) else "[in-place]")] = opn.get(ops[-1][0] + ("" if (k == 5 or cp) else "[in-place]"), 0) + 1
         # copy=True must leave the original untouched
         untouched = np.array_equal(mol.pos, orig_pos) and np.allclose(mol.rotator.as_matrix(), orig_mat)
         M = cur.rotator.as_matrix()[0]
         axes_ok = (np.allclose(cur.z[0], M @ [1, 0, 0]) and np.allclose(cur.y[0], M @ [0, 1, 0]) and np.allclose(cur.x[0], M @ [0, 0, 1]))
         term = (f"(check_seq {vlit(p0)} {mlit(R[r0])} {lst(terms)} {vlit(cur.pos[0])} {mlit(M)} "
-                f"{vlit(cur.z[0])} {vlit(cur.y[0])} {vlit(cur.x[0])} {bl(untouched and axes_ok)})")
+                f"{vlit(cur.z[0])} {vlit(cur.y[0])} {vlit(cur.x[0])} {bl(untouched and axes_ok and identity_ok)})")
         cases.append((term, {"p0": p0.tolist(), "r0": r0, "ops": ops, "final_pos": cur.pos[0].tolist(), "untouched": bool(untouched)}))
     ck.corr_run("call_sequences", ["Acryo.Common.Ring3", "AcryoGen.Anchors_C11", "Acryo.C11.Model"], cases, shard=250,
                 observable=True, describe=lambda c: {"site": "sequence", "first_op": c["ops"][0][0]}, classes=opn)
@@ -183,6 +191,13 @@ def corr_affine_coords(ck, rng):
         shape = tuple(int(x) for x in rng.integers(1, 5, size=3))
         scale = float(rng.choice([1.0, 0.5, 2.0]))
         lc = mol.local_coordinates(shape, scale)
+        # implementation-only oracle: the grid is centred on the molecule (its centroid is pos/scale, and it is point-symmetric)
+        ck.oracle_count("local_grid_centred", 1, 1 if any(s_ % 2 == 0 for s_ in shape) else 0)
+        cen = lc.reshape(3, -1).mean(axis=1)
+        if np.abs(cen - p0 / scale).max() > 1e-4 or np.abs(lc + lc[:, ::-1, ::-1, ::-1] - 2 * (p0 / scale)[:, None, None, None]).max() > 1e-4:
+            ck.violation(what=f"local_coordinates{shape}: grid centroid {cen.tolist()} but the molecule sits at {(p0 / scale).tolist()} px",
+                         inp={"pos": p0.tolist(), "rot": r0, "shape": shape, "scale": scale},
+                         key={"site": "local_coordinates", "even_axis": any(s_ % 2 == 0 for s_ in shape)}, oracle="local_grid_centred")
         k = [int(rng.integers(0, s)) for s in shape]
         got = lc[:, k[0], k[1], k[2]]
         cases.append((f"(check_local {vlit(p0)} {ql(frac(scale))} {mlit(R[r0])} {zlist(shape)} {zlist(k)} {vlit(got)})",
